@@ -307,6 +307,24 @@ def family(tier):
              ("inexact | 1.9x<=1.9", [(bop("Mul", num(1.9), x), "LessOrEqual", 1.9, "")], x, "Max", ("Real", 1.0, 5.0), ("Real", 0.0, 1.0)),
              ("inexact | 1.9x<=15.2 int", [(bop("Mul", num(1.9), x), "LessOrEqual", 15.2, "")], x, "Max", ("IntegerRange", 0, 20), ("Real", 0.0, 1.0)),
              ("inexact | 3.9x>=42.9 int", [(bop("Mul", num(3.9), x), "GreaterOrEqual", 42.9, "")], x, "Min", ("IntegerRange", 0, 20), ("Real", 0.0, 1.0))]
+    # one nonlinear operand used several times, in positions that ask for different things of its auxiliary (one-sided in
+    # one place, exact in another; objective first, then rows), and rows that are trivialised by a bound they imply
+    # themselves next to a contradiction
+    box = ("Real", -4.0, 4.0)
+    for gl, g in (("abs(x)", ab(x)), ("abs(x-y)", ab(bop("Sub", x, y))), ("max(x,y)", mx(x, y)), ("min(x,2y)", mn(x, bop("Mul", num(2), y)))):
+        two_minus_three = bop("Sub", bop("Sub", bop("Mul", num(2), g), bop("Mul", num(3), g)), bop("Mul", num(2), x))
+        extra += [("shared | min 2g-3g-2x, g=%s" % gl, [(bop("Add", x, y), "LessOrEqual", 6.0, "")], two_minus_three, "Min", box, box),
+                  ("shared | max 2g-3g-2x, g=%s" % gl, [(bop("Add", x, y), "LessOrEqual", 6.0, "")], two_minus_three, "Max", box, box),
+                  ("shared | min g+x ; g>=2, g=%s" % gl, [(g, "GreaterOrEqual", 2.0, "")], bop("Add", g, x), "Min", box, box),
+                  ("shared | max g+x ; g<=2, g=%s" % gl, [(g, "LessOrEqual", 2.0, "")], bop("Add", g, x), "Max", box, box),
+                  ("shared | max g-y ; g>=1, g=%s" % gl, [(g, "GreaterOrEqual", 1.0, "")], bop("Sub", g, y), "Max", box, box),
+                  ("shared | g<=3 ; g>=1, g=%s" % gl, [(g, "LessOrEqual", 3.0, "up"), (g, "GreaterOrEqual", 1.0, "lo")], bop("Add", x, y), "Min", box, box),
+                  ("shared | g>=1 ; g<=3 ; g=2, g=%s" % gl, [(g, "GreaterOrEqual", 1.0, ""), (g, "LessOrEqual", 3.0, ""), (g, "Equal", 2.0, "")], g, "Min", box, box)]
+    extra += [("self-implied | abs(x)-x<=0 ; x<=-1", [(bop("Sub", ab(x), x), "LessOrEqual", 0.0, ""), (x, "LessOrEqual", -1.0, "")], x, "Min", box, box),
+              ("self-implied | max(x,0)-x<=0 ; x<=-1", [(bop("Sub", mx(x, num(0)), x), "LessOrEqual", 0.0, ""), (x, "LessOrEqual", -1.0, "")], x, "Min", box, box),
+              ("self-implied | abs(x)-x<=0 ; x>=1", [(bop("Sub", ab(x), x), "LessOrEqual", 0.0, ""), (x, "GreaterOrEqual", 1.0, "")], x, "Min", box, box),
+              ("self-implied | min(x,0)-x>=0 ; x>=1 ; y>=5", [(bop("Sub", mn(x, num(0)), x), "GreaterOrEqual", 0.0, ""), (x, "GreaterOrEqual", 1.0, ""), (y, "GreaterOrEqual", 5.0, "")], y, "Min", box, box),
+              ("self-implied | abs(x)+x<=0 ; x>=2 ; x+y>=1", [(bop("Add", ab(x), x), "LessOrEqual", 0.0, ""), (x, "GreaterOrEqual", 2.0, ""), (bop("Add", x, y), "GreaterOrEqual", 1.0, "")], y, "Max", box, box)]
     for label, cons_, obj_, opt_, dx_, dy_ in extra:
         out.append((label, cons_, obj_, opt_, dx_, dy_, label.split("| ")[1]))
     return out
